@@ -97,6 +97,10 @@ fn gen_reader_symbol(rng: &mut Rng) -> String {
                     "a+", "a-b", "1/0", "0/0", "1a", "12ab", "1.2.3", "-+5", "+-5", "++", "--", "1e", "e1", "inf",
                     "nan", "-inf", "+inf", "NaN", "a\\x41;b", "\\x41;", "x", "X", "t", "f", "define", "if", ".5.",
                     "1/2/3", "1//2", "+a", ".+", "-.5a", "1_000", "a\\", "\\\\", "\\x;", "ff", "e", "1f5", "-e",
+                    // fix c1c04ca: a spelling with a signed exponent that reads as a number is no longer a
+                    // reader-producible symbol (reads_as_symbol below asks the real reader); the near misses are
+                    "1e-7", "2.5E+3", ".5e-1", "-1e+2", "1e-", "1e-x", "1ee-7", ".e-1", ".5e-x", "1e-7x", "1.e-2",
+                    "1e--7", "1e+-7", "+1e-7", "1e+", "-1E-", "1.2.3e-4", "1/2e-3", "1e-7e-7", "+e-1", "-e+1", "e-7",
                 ])
                 .to_string(),
             1 => {
@@ -105,7 +109,7 @@ fn gen_reader_symbol(rng: &mut Rng) -> String {
                 let mut s = String::new();
                 s.push(*rng.pick(&['+', '-', '1', '9', '.', '0']));
                 for _ in 0..n {
-                    s.push(*rng.pick(&['0', '1', '5', 'a', 'e', 'f', '.', '/', '+', '-', 'x', 'g', '@']));
+                    s.push(*rng.pick(&['0', '1', '5', 'a', 'e', 'e', 'E', 'f', '.', '/', '+', '-', '-', 'x', 'g', '@']));
                 }
                 s
             }
